@@ -40,8 +40,10 @@ def fiber_from_spec(ts, default=0, shape=None, level=0, **kwargs):
     return Fiber(coords, payloads, default=default, **kw)
 
 
-def tensor_from_spec(ts, rank_ids, shape=None, default=0, fmts=None, name="", mutable=None):
-    f = fiber_from_spec(ts, default=default)
+def tensor_from_spec(ts, rank_ids, shape=None, default=0, fmts=None, name="", mutable=None, fiber_default=None):
+    """fiber_default: leaf default the free fibers are constructed with before they join the tensor (their own
+    attributes must be replaced by the rank's); None = the tensor's default."""
+    f = fiber_from_spec(ts, default=default if fiber_default is None else fiber_default)
     kw = {}
     if name:
         kw["name"] = name
